@@ -447,6 +447,42 @@ repeat_huge_harness!(c01_repeat_tuple_huge_count, true);
 repeat_huge_harness!(c01_repeat_list_huge_count, false);
 // @verif-end
 
+
+// ---------------------------------------------------------------------------
+// C07: `x in [y]` agrees with `x == y` (membership is defined by equality, also across kinds).
+// ---------------------------------------------------------------------------
+macro_rules! in_agrees_with_eq_harness {
+    ($name:ident, $elem:expr, $needle:expr) => {
+        #[kani::proof]
+        #[kani::unwind(5)]
+        #[kani::stub(alloc::fmt::format, crate::verif_common::format_stub)]
+        #[kani::stub(alloc::sync::Arc::drop_slow, crate::verif_common::arc_drop_slow_leak)]
+        fn $name() {
+            let n: i64 = kani::any();
+            let mk_elem: fn(i64) -> Value = $elem;
+            let mk_needle: fn(i64) -> Value = $needle;
+            let elem = mk_elem(n);
+            let needle = mk_needle(n);
+            let equal = elem == needle;
+            let list = Value::from(vec![mk_elem(n)]);
+            let r = contains(&list, &needle);
+            match r {
+                Ok(Value(ValueRepr::Bool(b))) => assert!(b == equal),
+                _ => assert!(false),
+            }
+            kani::cover!(equal);
+            kani::cover!(!equal);
+            core::mem::forget((r, list, elem, needle));
+        }
+    };
+}
+
+// @verif-block props=C07 tier=quick cap=900 group=core doc=ops::contains_on_a_one-element_list:_`needle_in_[elem]`_is_exactly_`elem_==_needle`_for_the_listed_kinds_of_element_and_needle_built_from_ANY_i64_n_(membership_follows_equality,_also_where_equality_coerces_across_kinds)
+in_agrees_with_eq_harness!(c07_in_list_int_vs_bool, |n| Value::from(n), |n| Value::from(n == 1));
+in_agrees_with_eq_harness!(c07_in_list_bool_vs_int, |n| Value::from(n % 2 == 0), |n| Value::from(n));
+in_agrees_with_eq_harness!(c07_in_list_int_vs_int, |n| Value::from(n), |n| Value::from(n ^ 1));
+// @verif-end
+
 #[cfg(test)]
 mod playback {
     use super::*;
